@@ -29,6 +29,7 @@ PATTERNS = [
     ((1,), {}), ((1.0,), {}), ((True,), {}), (("1",), {}), ((1, 2), {}), ((1.0, 2.0), {}),
     (((1, 2),), {}), (((1.0, 2.0),), {}), ((None,), {}), ((), {"a": 1, "b": 2}), ((), {"b": 2, "a": 1}),
     ((1,), {"b": 2}), ((), {}), ((2,), {}), ((3,), {}), ((), {"a": 1.0, "b": 2}), (([1],), {}),
+    ((("a", 1), ("b", 2)), {}),
 ]
 
 
@@ -179,6 +180,7 @@ TIERS = {
         (3, False, [10, 11, 12, 16, 5], "func", 4), (3, True, [10, 16, 12, 11], "func", 4), (2, False, [1, 2, 14], "method", 4), (2, False, [1, 12, 10], "method", 4),
         (128, False, [1, 2, 3, 14, 15], "bare", 4), (None, False, [1, 2, 3, 13], "cache", 4), (128, True, [1, 2, 3, 5], "direct", 4),
         (2, False, [1, 14], "classmethod", 4), (2, True, [1, 2], "staticmethod", 4),
+        (2, False, [10, 18, 11], "func", 4), (None, True, [10, 18], "func", 3),
     ],
     "thorough": [
         (2, False, [1, 2, 3, 14, 15, 4], "func", 6), (2, True, [1, 2, 3, 5, 6, 14], "func", 6),
@@ -190,6 +192,7 @@ TIERS = {
         (128, False, [1, 2, 3, 14, 15, 4], "bare", 5), (None, False, [1, 2, 3, 4, 9], "cache", 5), (128, True, [1, 2, 3, 5, 6, 14], "direct", 5),
         (128, False, [1, 2, 3, 5], "direct", 4),
         (2, False, [1, 14, 2], "classmethod", 5), (2, True, [1, 2, 14], "staticmethod", 5),
+        (2, False, [10, 18, 11, 1], "func", 5), (None, True, [10, 18, 16], "func", 4),
     ],
 }
 
